@@ -37,6 +37,11 @@ pub(crate) struct NISP2Commitments {
 }
 
 impl NISP2Commitments {
+    /// number of per-attribute responses carried by the proof
+    pub(crate) fn responses_len(&self) -> usize {
+        self.d.len()
+    }
+
     /* Generation of the proof related to two commitments (C1 and C2) (generate proof that C1 is a commitment to the same secrets as C2) */
     pub(crate) fn nisp2_generate_proof_MultiSecrets<CS>(
         messages: &[CL03Message],
